@@ -175,9 +175,10 @@ class SumV:
 
 
 class Raised:
-    def __init__(self, exc, node=None):
+    def __init__(self, exc, node=None, args=None):
         self.exc = exc
         self.node = node
+        self.args = args       # evaluated constructor arguments (None: not known)
 
     def __repr__(self):
         return 'Raised(%s)' % self.exc
@@ -385,6 +386,7 @@ BUILTIN_EXC = {'RuntimeWarning', 'UserWarning', 'DeprecationWarning', 'Warning',
                'NameError'}
 
 
+FILE_METHODS = frozenset(a_ for a_ in dir(__import__('io').TextIOWrapper) if not a_.startswith('__'))
 PLACEHOLDER_LOG = []     # where a formatted text had no abstract spelling and was replaced by a placeholder
 HAZARD_LOG = []      # (kind, node, relpath): every hazard any interpreter of this process recorded (see main.py)
 VISITED = set()      # qualified names of every function of the analysed package that was interpreted in this process
@@ -445,6 +447,8 @@ class Interp:
         self.depth = 0
         self.stack = []               # ids of the FunctionDefs being inlined (recursion guard)
         self.warnings = []
+        self.suppressed_warnings = []       # warnings.warn calls that a filter in force turned into nothing
+        self.warn_filters = []              # newest first, like warnings.filters
         self.calls = []               # inlined (qualname) trace
         self.native = dict(NATIVE)
         self.opaque_funcs = {}        # qualified function name -> handler(interp, args, kwargs)
@@ -482,6 +486,8 @@ class Interp:
 
     # ------------------------------------------------------------------
     # units model (verified against the literal tables by C12)
+        self._install_module_filters()
+
     def _unit_tables(self):
         if self.unit_one is not None:
             return
@@ -581,6 +587,51 @@ class Interp:
                 else:
                     raise _RaisedExc(Raised('TypeError', fn))
         return env
+
+    def filter_text_is_foreign(self, text):
+        cache = self.__dict__.setdefault('_foreign_filter_text', {})
+        if text not in cache:
+            head = text.lower()[:12]
+            skip = set()
+            found = False
+            for m in self.repo.modules.values():
+                for nd in ast.walk(m.tree):
+                    if isinstance(nd, ast.Call) and isinstance(nd.func, (ast.Name, ast.Attribute)) and \
+                            (nd.func.id if isinstance(nd.func, ast.Name) else nd.func.attr) in ('filterwarnings',
+                                                                                                  'simplefilter'):
+                        for a in ast.walk(nd):
+                            skip.add(id(a))
+                for nd in ast.walk(m.tree):
+                    if isinstance(nd, ast.Constant) and isinstance(nd.value, str) and id(nd) not in skip and \
+                            (head in nd.value.lower() or ' ' in nd.value.strip() and
+                             head.startswith(nd.value.lower().lstrip()[:12])):
+                        found = True
+            cache[text] = not found
+        return cache[text]
+
+    def _install_module_filters(self):
+        """warnings.filterwarnings / simplefilter calls at module level of the analysed package act process-wide from
+        import on: they are part of the state every function runs in"""
+        for m in self.repo.modules.values():
+            for st in m.tree.body:
+                if not (isinstance(st, ast.Expr) and isinstance(st.value, ast.Call)):
+                    continue
+                f = st.value.func
+                name = None
+                if isinstance(f, ast.Attribute) and isinstance(f.value, ast.Name):
+                    al = m.aliases.get(f.value.id)
+                    if al and al[0] == 'module' and al[1] == 'warnings':
+                        name = f.attr
+                elif isinstance(f, ast.Name):
+                    al = m.aliases.get(f.id)
+                    if al and al[0] == 'object' and al[1] == 'warnings':
+                        name = al[2]
+                if name not in ('filterwarnings', 'simplefilter'):
+                    continue
+                fr = Frame(self, m, {}, None, None)
+                args = [fr.ev(a_) for a_ in st.value.args]
+                kwargs = {k_.arg: fr.ev(k_.value) for k_ in st.value.keywords}
+                _add_filter(self, args, kwargs, st, name == 'simplefilter')
 
     def parsed_number(self, field, how='float'):
         """the number read back from a printed value: the value itself when the format loses nothing (an integer
@@ -1343,9 +1394,19 @@ class Frame:
                 e = st.exc
                 if isinstance(e, ast.Name) and isinstance(self.env.get(e.id), Raised):
                     raise _RaisedExc(self.env[e.id])         # raise <caught exception>
+                xargs = [] if isinstance(e, (ast.Name, ast.Attribute)) else None      # a bare class: no arguments
                 if isinstance(e, ast.Call):
+                    xargs = None
+                    # the arguments (the message) are evaluated as Python does; what has no abstract value is
+                    # left unknown
+                    if not e.keywords and not any(isinstance(a, ast.Starred) for a in e.args):
+                        try:
+                            xargs = [self.ev(a) for a in e.args]
+                        except Unsupported:
+                            xargs = None
                     e = e.func
                 exc = ast.unparse(e)
+                raise _RaisedExc(Raised(exc, st, xargs))
             raise _RaisedExc(Raised(exc, st))
         if isinstance(st, ast.If):
             t = I.truth(self.ev(st.test), st)
@@ -1365,12 +1426,21 @@ class Frame:
             return
         if isinstance(st, ast.With):
             suppress = []
+            saved_filters = None
             for item in st.items:
                 v = self.ev(item.context_expr)
                 if hasattr(v, 'pmv_suppress'):
                     suppress.extend(v.pmv_suppress)
+                if isinstance(v, CatchWarnings):
+                    saved_filters = list(I.warn_filters)
                 if item.optional_vars is not None:
                     self.assign(item.optional_vars, v)
+            if saved_filters is not None:
+                try:
+                    self.exec_block(st.body)
+                finally:
+                    I.warn_filters[:] = saved_filters
+                return
             if suppress:
                 try:
                     self.exec_block(st.body)
@@ -2252,7 +2322,7 @@ class Frame:
                 v_ = self.apply(base.factory, [], {}, n)
                 base.d[k] = v_                  # defaultdict stores what the factory made
                 return v_
-            raise _RaisedExc(Raised('KeyError', n))
+            raise _RaisedExc(Raised('KeyError', n, [k]))      # the message of a dict's KeyError is the key
         if isinstance(base, TableRef):
             return base.lookup(self, idx, n)
         if isinstance(base, Obj) and base.ci is not None and \
@@ -2407,6 +2477,9 @@ class Frame:
         if attr == '__dict__':
             return DictV(dict(obj.attrs))
         if obj.closed:
+            if '__mode__' in obj.attrs and attr in FILE_METHODS:
+                # a method every text file has, without a model here: not an AttributeError Python would raise
+                raise Unsupported('method %r of a file object' % attr, node, self.module.relpath)
             raise _RaisedExc(Raised('AttributeError', node))
         # lazily created parameter atom
         name = '%s.%s' % (obj.name, attr)
@@ -2806,6 +2879,9 @@ def builtin_call(I, fr, name, args, kwargs, n):
         if f is not None and f.cls == 'num' and isinstance(f.value, Rat):
             return I.parsed_number(f, name)
         if sv.is_literal():
+            txt_ = sv.literal().strip()
+            if name == 'int' and not re.fullmatch(r'[+-]?\d+(?:_\d+)*', txt_):
+                raise _RaisedExc(Raised('ValueError', n))      # int('1.5'), int('1e3'): not an integer literal
             try:
                 return C(token_num(sv.literal()).v)
             except Unsupported:
@@ -2814,6 +2890,8 @@ def builtin_call(I, fr, name, args, kwargs, n):
             I.cuts.append((n, '%s() of %r: the text is not exactly one number' % (name, sv)))
         raise _RaisedExc(Raised('ValueError', n))
     if name in ('float', 'int') and args and isinstance(args[0], str):
+        if name == 'int' and not re.fullmatch(r'[+-]?\d+(?:_\d+)*', args[0].strip()):
+            raise _RaisedExc(Raised('ValueError', n))      # int('1.5'), int('1e3'): not an integer literal
         try:
             return C(token_num(args[0].strip()).v)
         except Unsupported:
@@ -2849,11 +2927,22 @@ def builtin_call(I, fr, name, args, kwargs, n):
         fo.attrs['__mode__'] = mode
 
         def write(I_, o, a, k, fname=fname):
-            I_.files.setdefault(fname, [])
+            lines = list(I_.files.setdefault(fname, []))
             txt = I_.seg(a[0])
-            I_.files[fname] = list(I_.files[fname]) + txt.splitlines()
+            if lines:
+                last = I_.seg(lines[-1])
+                if not (last.segs and last.segs[-1].kind == 'lit' and last.segs[-1].text.endswith('\n')):
+                    txt = last + txt            # the line that was begun by the write before goes on
+                    lines.pop()
+            I_.files[fname] = lines + txt.splitlines()
+            return None
+
+        def writelines(I_, o, a, k, fr=fr, n=n):
+            for item in fr.iter_items(a[0], n):
+                write(I_, o, [item], {})
             return None
         fo.opaque_methods['write'] = write
+        fo.opaque_methods['writelines'] = writelines
         fo.opaque_methods['close'] = lambda I_, o, a, k: None
         if 'w' in mode:
             I.files[fname] = []
@@ -3202,7 +3291,7 @@ def builtin_call(I, fr, name, args, kwargs, n):
         d.d.update(kwargs)          # keyword arguments override the mapping
         return d
     if name in BUILTIN_EXC:
-        return Raised(name, n)
+        return Raised(name, n, list(args) if not kwargs else None)
     if name == 'super' and not args and fr.self_obj is not None and fr.owner is not None:
         return SuperV(fr.self_obj, fr.owner)
     if name == 'object' and not args and not kwargs:
@@ -3363,7 +3452,7 @@ def bound_native(I, fr, bn, args, kwargs, n):
                 return b.d.pop(k)
             if len(args) > 1:
                 return args[1]
-            raise _RaisedExc(Raised('KeyError', n))
+            raise _RaisedExc(Raised('KeyError', n, [k]))
         if name == 'update':
             if args and isinstance(args[0], DictV):
                 b.d.update(args[0].d)
@@ -3390,6 +3479,10 @@ def bound_native(I, fr, bn, args, kwargs, n):
                 return b.format(*args)
             except (IndexError, KeyError, ValueError):
                 pass
+        try:
+            return I.format(b, args, kwargs)        # numbers and abstract texts as arguments
+        except Unsupported:
+            pass
         PLACEHOLDER_LOG.append((CUR_REL[0], getattr(n, 'lineno', 0)))
         return '<formatted>'
     if isinstance(b, str) and b not in I.sym_strings and name in (
@@ -3772,7 +3865,33 @@ def _np_unary(fname):
 
 
 def _np_sum(I, fr, args, kwargs, n):
-    return I.np_sum(_arg(args, kwargs, 0, 'a'))
+    v = _arg(args, kwargs, 0, 'a')
+    axis = _arg(args, kwargs, 1, 'axis', None)
+    if axis is None:
+        return I.np_sum(v)
+    if not (isinstance(axis, Rat) and axis.is_const() and axis.const_value() in (0, 1, -1)):
+        raise Unsupported('np.sum along axis %r' % (axis,), n)
+    ax = int(axis.const_value())
+    if not (isinstance(v, ListV) and v.items and all(isinstance(r_, ListV) and len(r_) == len(v.items[0]) and
+                                                     not any(isinstance(x, ListV) for x in r_.items)
+                                                     for r_ in v.items)):
+        if isinstance(v, ListV) and ax in (0, -1) and not any(isinstance(x, ListV) for x in v.items):
+            return I.np_sum(v)
+        raise Unsupported('np.sum along an axis of something that is not a table of numbers', n)
+    rows = [list(r_.items) for r_ in v.items]
+    lines = rows if ax in (1, -1) else [list(c_) for c_ in zip(*rows)]
+    out = ListV([I.np_sum(ListV(l_)) for l_ in lines])
+    out.is_array = True
+    return out
+
+
+def _np_sort(I, fr, args, kwargs, n):
+    v = _arg(args, kwargs, 0, 'a')
+    if isinstance(v, ListV) and all(isinstance(x, Rat) for x in v.items):
+        out = builtin_call(I, fr, 'sorted', [v], {}, n)
+        out.is_array = True
+        return out
+    raise Unsupported('np.sort of %r' % (v,), n)
 
 
 def _np_prod(I, fr, args, kwargs, n):
@@ -4359,7 +4478,92 @@ def _np_concatenate(I, fr, args, kwargs, n):
     return r
 
 
+class CatchWarnings:
+    """the context manager warnings.catch_warnings(): the filters set inside the block are undone at its end"""
+
+
+def _category_name(v):
+    if v is None:
+        return 'UserWarning'
+    if isinstance(v, Builtin):
+        return v.name
+    if isinstance(v, ExtRef):
+        return v.alias[-1]
+    if isinstance(v, str) and v not in ('',):
+        return v
+    raise Unsupported('warning category %r' % (v,))
+
+
+def _add_filter(I, args, kwargs, n, simple):
+    action = _arg(args, kwargs, 0, 'action')
+    if simple:
+        category, message, module = _arg(args, kwargs, 1, 'category', None), '', ''
+    else:
+        message = _arg(args, kwargs, 1, 'message', '')
+        category = _arg(args, kwargs, 2, 'category', None)
+        module = _arg(args, kwargs, 3, 'module', '')
+    kwargs.get('lineno'), kwargs.get('append')
+    if kwargs.get('append') not in (None, False):
+        raise Unsupported('warnings filter appended at the end of the list', n)
+    if not all(isinstance(x, str) and x not in I.sym_strings for x in (action, message, module)):
+        raise Unsupported('warnings filter with symbolic arguments', n)
+    I.warn_filters.insert(0, {'action': action, 'message': message, 'module': module,
+                              'category': 'Warning' if category is None else _category_name(category)})
+    return None
+
+
+def _catch_warnings(I, fr, args, kwargs, n):
+    if kwargs.get('record') not in (None, False):
+        raise Unsupported('warnings.catch_warnings(record=True)', n)
+    return CatchWarnings()
+
+
 def _warn(I, fr, args, kwargs, n):
+    """warnings.warn under the filters in force (set at module level anywhere in the package, or in an enclosing
+    catch_warnings block): an ignored warning is not a signal to the caller"""
+    msg = _arg(args, kwargs, 0, 'message', None)
+    cat = _arg(args, kwargs, 1, 'category', None)
+    kwargs.get('stacklevel')
+    if isinstance(msg, Raised):
+        catname = msg.exc if cat is None else _category_name(cat)
+    else:
+        catname = _category_name(cat)
+    modname = fr.module.name if fr is not None else ''
+    for flt in I.warn_filters:
+        if not exc_matches(catname, [flt['category']]) and flt['category'] != 'Warning':
+            continue
+        if flt['module'] and not re.match(flt['module'], modname):
+            continue
+        if flt['message']:
+            m_ = msg
+            if isinstance(m_, Raised):
+                m_ = m_.args[0] if m_.args else None
+            literal_only = re.fullmatch(r'[\w ,;:()\-]*', flt['message']) is not None
+            text = None
+            if isinstance(m_, str) and m_ not in I.sym_strings:
+                text = m_
+                if '<formatted>' in text:
+                    m_ = SegStr.lit(text.split('<formatted>')[0]) + SegStr.field('~formatted', 1, 'any')
+            if isinstance(m_, SegStr) and m_.segs and m_.segs[0].kind == 'lit':
+                text = m_.segs[0].text
+                if not (literal_only and (len(text) >= len(flt['message']) or
+                                          not flt['message'].lower().startswith(text.lower()))):
+                    raise Unsupported('warnings filter on the text of a partly symbolic message', n)
+            if text is None:
+                # a message of unknown text: it is put together from the string constants of the package (or starts
+                # with a text of the user); a filter on a literal text that stands in no string constant of the
+                # package outside the filter calls cannot be about it
+                if literal_only and I.filter_text_is_foreign(flt['message']):
+                    continue
+                raise Unsupported('warnings filter on the text of a message that has no abstract spelling', n)
+            if not re.match(flt['message'], text, re.I):
+                continue
+        if flt['action'] == 'ignore':
+            I.suppressed_warnings.append(n)
+            return None
+        if flt['action'] == 'error':
+            raise _RaisedExc(Raised(catname, n))
+        break
     I.warnings.append(n)
     return None
 
@@ -4732,6 +4936,7 @@ NATIVE = {
     'numpy.cosh': _np_unary('cosh'),
     'numpy.tanh': _np_unary('tanh'),
     'numpy.sum': _np_sum,
+    'numpy.sort': _np_sort,
     'numpy.prod': _np_prod,
     'numpy.append': _np_append,
     'numpy.size': _np_size,
@@ -4764,9 +4969,9 @@ NATIVE = {
     'numpy.max': _np_minmax('max'),
     'numpy.concatenate': _np_concatenate,
     'warnings.warn': _warn,
-    'warnings.catch_warnings': lambda I, fr, args, kwargs, n: None,
-    'warnings.simplefilter': lambda I, fr, args, kwargs, n: None,
-    'warnings.filterwarnings': lambda I, fr, args, kwargs, n: None,
+    'warnings.catch_warnings': _catch_warnings,
+    'warnings.simplefilter': lambda I, fr, args, kwargs, n: _add_filter(I, args, kwargs, n, True),
+    'warnings.filterwarnings': lambda I, fr, args, kwargs, n: _add_filter(I, args, kwargs, n, False),
     'numpy.errstate': lambda I, fr, args, kwargs, n: None,
     'contextlib.nullcontext': lambda I, fr, args, kwargs, n: (args[0] if args else None),
     'pmutt.constants.R': _c_R,
